@@ -674,6 +674,17 @@ func (x *Exec) sliceOp(st *State, fr *Frame, in *ssa.Slice) Val {
 			x.setHeap(st, en, Store(x.heapArr(st, en, es), base, arrT))
 		}
 		res := Val{T: App(SSlice, "mk-slice", base, loT, App(SInt, "-", hiT, loT), App(SInt, "-", n, loT)), Typ: in.Type()}
+		// static information about the cells (dynamic types of interface values in a varargs array,
+		// closures) follows the copy, so specs can speak about payload(args[k])
+		if st.meta != nil && at.Len() <= 64 {
+			for k := int64(0); k < at.Len(); k++ {
+				src := l.extend(lstep{isIdx: true, idx: IntLit(k), ct: at.Elem()})
+				if mv, ok := st.meta[lvKey(src)]; ok {
+					dst := &LVal{Kind: "elems", Root: base, RootT: at.Elem(), Path: []lstep{{isIdx: true, idx: IntLit(k)}}}
+					st.meta[lvKey(dst)] = mv
+				}
+			}
+		}
 		x.Abstracted["slice of array pointer copied (aliasing with the array dropped)"]++
 		return res
 	}
